@@ -2,6 +2,7 @@ import Lean.Data.Json
 import UcantoModel.Model.Cbor
 import UcantoModel.Model.Wire
 import UcantoModel.Model.StructRd
+import UcantoModel.Model.Issue
 /-! # reading the harness's JSON form of an IPLD value into `Cbor.CVal` (driver glue, not verified) -/
 namespace CborJson
 open Lean Cbor
@@ -132,12 +133,53 @@ def parseMsg (j : Json) : Except String Msg := do
     | _ => .ok none
   pure { execute, report }
 
+def parseAtt (j : Json) : Except String (List Cap) :=
+  match j.getObjVal? "att" with
+  | .ok (.arr xs) => xs.toList.mapM fun c => do
+    let w ← hexField c "with"
+    let cn ← hexField c "can"
+    let nb ← (c.getObjVal? "nb") >>= CborJson.parse
+    pure (⟨w, cn, nb⟩ : Cap)
+  | _ => .error "att"
+
+def intField (j : Json) (key : String) : Except String Int :=
+  match j.getObjVal? key with
+  | .ok (.str s) => match s.toInt? with
+    | some i => .ok i
+    | none => .error s!"int {key}"
+  | _ => .error s!"missing {key}"
+
+def parseOpt (j : Json) : Except String Issue.Opt := do
+  match ← j.getObjValAs? String "o" with
+  | "noexp" => pure .noexp
+  | "exp" => pure (.exp (← intField j "i"))
+  | "nbf" => pure (.nbf (← intField j "i"))
+  | "nnc" => pure (.nnc (← hexField j "s"))
+  | "prf" => pure (.prf (← (j.getObjVal? "l") >>= hexList))
+  | "fct" => match j.getObjVal? "f" with
+    | .ok (.arr xs) => do pure (.fct (← xs.toList.mapM entries))
+    | _ => .error "fct"
+  | o => .error s!"option {o}"
+
+/-- the token the issuance model writes for the given options (signature taken from the implementation) -/
+def issuedBytes (j : Json) : Except String Bytes := do
+  let v ← hexField j "v"
+  let iss ← hexField j "iss"
+  let aud ← hexField j "aud"
+  let s ← hexField j "s"
+  let att ← parseAtt j
+  let opts ← match j.getObjVal? "opts" with
+    | .ok (.arr xs) => xs.toList.mapM parseOpt
+    | _ => .error "opts"
+  pure (tokenBytes (Issue.token 0 v iss aud s att (Issue.fold opts)))
+
 /-- model bytes (hex) of one item `{kind, fields, root}` -/
 def itemBytes (j : Json) : Except String String := do
   let kind ← j.getObjValAs? String "kind"
   let f ← j.getObjVal? "fields"
   match kind with
   | "token" => (parseToken f).map fun t => Bytes.toHex (tokenBytes t)
+  | "issued" => (issuedBytes f).map Bytes.toHex
   | "receipt" => (parseRcpt f).map fun r => Bytes.toHex (receiptBytes r)
   | "message" => (parseMsg f).map fun m => Bytes.toHex (messageBytes m)
   | "archive" => (hexField f "root").map fun r => Bytes.toHex (archiveBytes r)
